@@ -79,7 +79,7 @@ func (interp *Interpreter) importSrc(rPath, importPath string, skipTest bool) (n
 	// Parse source files.
 	for _, file := range files {
 		name := file.Name()
-		if skipFile(&interp.context, name, skipTest) {
+		if file.IsDir() || skipFile(&interp.context, name, skipTest) {
 			continue
 		}
 
